@@ -142,20 +142,19 @@ class ContractInstruction(MichelsonInstruction, prim='CONTRACT', args_len=1):
         # NOTE: the address itself can name the entrypoint (`KT1…%name`): the instruction's then has to be the default one
         contract_address, address_entrypoint = address._split()
         contract_type = ContractType.create_type(args=cls.args)
-        if 'default' not in (address_entrypoint, entrypoint):
-            res = OptionType.none(contract_type)
-        else:
+        try:
+            assert 'default' in (address_entrypoint, entrypoint), f'two entrypoints: {address_entrypoint}, {entrypoint}'
             if entrypoint == 'default':
                 entrypoint = address_entrypoint
             entrypoint_type = get_entrypoint_type(context, entrypoint, address=contract_address)
-            try:
-                if entrypoint_type is None:
-                    stdout.append(f'{cls.prim}: skip type checking for {contract_address}')
-                else:
-                    entrypoint_type.assert_type_equal(cls.args[0])
-                res = OptionType.from_some(contract_type.from_value(f'{contract_address}%{entrypoint}'))  # type: ignore
-            except AssertionError:
-                res = OptionType.none(contract_type)
+            if entrypoint_type is None:
+                stdout.append(f'{cls.prim}: skip type checking for {contract_address}')
+            else:
+                entrypoint_type.assert_type_equal(cls.args[0])
+            res = OptionType.from_some(contract_type.from_value(f'{contract_address}%{entrypoint}'))  # type: ignore
+        except (AssertionError, MichelsonRuntimeError):
+            # NOTE: no such entrypoint, or another parameter type (the assertions of the type classes arrive rewrapped)
+            res = OptionType.none(contract_type)
         stack.push(res)
         stdout.append(format_stdout(cls.prim, [address], [res]))  # type: ignore
         return cls(stack_items_added=1)
